@@ -13,8 +13,9 @@ MANIFEST = {
     "text": "Lean theorems over a file model with a volatile image and a crash relation (process kill = volatile image "
             "after k events; power loss = any durable length since the last sync and, per 512-byte sector, any version "
             "since the last sync covering it), for every event trace satisfying the decidable writer protocol `conforms` "
-            "(transcribed from lm/binary_format.cc: incomplete marker until one commit write inside a header that fits a "
-            "sector, preceded by a sync of the whole file with no write in between, nothing written after): kill_safe, "
+            "(transcribed from lm/binary_format.cc: incomplete marker up to a sync of the whole file, after which only header "
+            "bytes are written, ending with the commit write that completes the Sanity block inside a header that fits a "
+            "sector; nothing written after): kill_safe, "
             "power_safe (every allowed image is rejected or byte-identical to the complete file), prefix_rejected (every "
             "truncation is rejected unless only bytes after the mapped region are missing), header_last.  The protocol is "
             "decided on the REAL system-call trace of build_binary on every run.",
@@ -24,16 +25,17 @@ MANIFEST = {
             "power-loss and truncation images; the real loaders (LoadVirtual default / with EnumerateVocab + READ) are run on "
             "every image: model `loads` = real accept, and accepted => query answers (float bits) and vocabulary identical to "
             "the complete file.  Assumed, not observed: the crash model itself (sector atomicity, msync/fsync semantics, "
-            "length durable at any sync, path fresh); instants inside one WriteHeader call are not sampled (the header store is "
-            "one event).  6 model types x {mmap, after} x with/without vocabulary strings.",
+            "length durable at any sync, path fresh).  Instants inside WriteHeader are covered exactly: its store order is "
+            "regenerated from the current source by single-stepping it on a write-protected page (tools/probe_C09_storeorder.cc) and "
+            "the header store of every mmap trace is replaced by those stores; the driver's power-loss enumeration is tied to the "
+            "crash relation by crash_enumeration_sound/complete.  6 model types x {mmap, after} x with/without vocabulary strings.",
     "technique": "Lean 4 proof over a crash model + protocol conformance of the real system-call trace + differential "
                  "correspondence of crash images with the real loader",
 }
 
 REQUIRED = ["KV.C09.kill_safe", "KV.C09.power_safe", "KV.C09.prefix_rejected", "KV.C09.header_last",
-            "KV.C09.mmap_vocab_header_not_last", "KV.C09.real_header_fits_sector", "KV.C09.conforms_unpack"]
-
-KNOWN_HDR = "kill-inside-WriteHeader"
+            "KV.C09.mmap_vocab_header_not_last", "KV.C09.real_header_fits_sector", "KV.C09.conforms_unpack",
+            "KV.C09.crash_enumeration_sound", "KV.C09.crash_enumeration_complete", "KV.C09.sanity_first_not_conforming"]
 
 TYPES = [
     ("probing", ["probing"], []),
@@ -152,7 +154,7 @@ def unhex(h):
     return b"" if h == "-" else bytes.fromhex(h)
 
 
-def run_config(ctx, bdir, shim, hexe, dexe, base, arpa, lower, queries, tname, targs, textra, wm, vocab, tm_of):
+def run_config(ctx, bdir, shim, hexe, dexe, base, arpa, lower, queries, tname, targs, textra, wm, vocab, tm_of, store_order):
     """One build configuration.  Returns True when a violation was reported."""
     found = False
     name = "%s-%s-%s" % (tname, wm, "vocab" if vocab else "novocab")
@@ -181,6 +183,40 @@ def run_config(ctx, bdir, shim, hexe, dexe, base, arpa, lower, queries, tname, t
     if not vocab:
         tm_of[(tname, wm)] = len(fin)
     TM = tm_of.get((tname, wm), len(fin))
+    # WriteHeader through the shared mapping: replace the single header `store` (one snapshot difference) by the
+    # instruction-level stores in the order regenerated from the current source (tools/probe_C09_storeorder.cc), so
+    # that exactly the reachable partial-header images become kill images of the trace and `conforms` sees the order
+    hdr_event = None
+    magic = fin[:S]
+    for ci, (idx, snap, label) in enumerate(cps):
+        if label.startswith("stores before") and snap[:S] == magic and (ci == 0 or cps[ci - 1][1][:S] != magic):
+            hdr_event = (ci, idx)
+    n_sub = 0
+    if hdr_event is not None:
+        ci, idx = hdr_event
+        d = diff_range(cps[ci - 1][1] if ci else b"", cps[ci][1])
+        order_list = store_order(order)
+        if order_list is None or d is None or d[1] > H:
+            ctx.violation("%s: the header store cannot be refined (store-order probe failed or the commit store leaves the "
+                          "header: %s)" % (name, d), replay, no_input=True)
+            found = True
+        else:
+            covered = set()
+            for off, ln in order_list:
+                covered |= set(range(off, off + ln))
+            if not set(range(d[0], d[1])) <= covered or max(covered) >= H:
+                ctx.violation("%s: store-order probe (%s) does not cover the observed header store %s within the header" % (
+                    name, order_list, d), replay, no_input=True)
+                found = True
+            else:
+                post = cps[ci][1]
+                subs = ["ev store %d %s" % (off, hexs(post[off:off + ln])) for off, ln in order_list]
+                n_sub = len(subs)
+                evs[idx - 1:idx] = subs
+                shift = n_sub - 1
+                cps[:] = [(i if j < ci else i + shift, sn, ("header stores done before " + lb[14:]) if j == ci else lb)
+                          for j, (i, sn, lb) in enumerate(cps)]
+                hdr_event = (ci, idx, idx + shift)      # model indices idx .. idx+shift-1 are partial-header images
     n_ev = len(evs)
     ctx.hist("crash.events", min(n_ev, 40))
     cap = 24 if ctx.tier == "quick" else 160
@@ -228,11 +264,15 @@ def run_config(ctx, bdir, shim, hexe, dexe, base, arpa, lower, queries, tname, t
             ctx.violation("trace model does not reproduce the file content after event %d (%s) of %s" % (
                 k, snap_at[k][1], name), dict(replay, event=k), no_input=True)
             found = True
-        add(img, v["loads"] == "true", v["eq"] == "true", "kill@%d" % k)
+        lab = "kill@%d" % k
+        if hdr_event is not None and len(hdr_event) == 3 and hdr_event[1] <= k < hdr_event[2]:
+            lab = "kill-inside-WriteHeader@%d(after store %d of %d)" % (k, k - hdr_event[1] + 1, n_sub)
+            ctx.hist("crash.header_prefix_images", wm)
+        add(img, v["loads"] == "true", v["eq"] == "true", lab)
     # instants between system calls: a mapping store applied only in part (prefix / suffix of its range)
     prev_img = b""
     for idx, snap, label in cps:
-        if label.startswith("stores before"):
+        if label.startswith("stores before"):      # (the header store is refined exactly above, not cut bytewise)
             d = diff_range(prev_img, snap)
             if d:
                 lo, hi = d
@@ -293,9 +333,7 @@ def run_config(ctx, bdir, shim, hexe, dexe, base, arpa, lower, queries, tname, t
         ctx.hist("crash.verdict", "accept" if acc else r_def)
         rp = dict(replay, image_hex=img.hex() if len(img) < 6000 else img[:6000].hex() + "...", image_labels=labels[:6],
                   real_default=r_def, real_enum=r_enum, model_loads=m_loads, complete=good)
-        # instants inside WriteHeader (only part of the header store applied) are outside the event model
-        hdr_partial = all(l.startswith("partial-store") and int(l.rsplit(":", 1)[1]) <= H for l in labels)
-        key = KNOWN_HDR if hdr_partial else None
+        key = None
         # the property itself: rejected by every loader with an exception, or answers exactly like the complete file
         if not acc and not r_def.startswith("reject") or not (r_enum.startswith("reject") or r_enum.startswith("accept")):
             unsafe += 1
@@ -357,6 +395,34 @@ def run(ctx):
         flow.report_obligation_failures(ctx, problems, False)
         return
     shim = build_shim()
+    so_cache = {}
+
+    def store_order(order):
+        """[(offset, length)] in program order, regenerated by single-stepping the real WriteHeader; None on failure"""
+        if order in so_cache:
+            return so_cache[order]
+        exe = os.path.join(bdir, "probe_C09_storeorder_" + md5(open(os.path.join(VERIF, "tools", "probe_C09_storeorder.cc"), "rb").read())[:10])
+        res = None
+        if not os.path.exists(exe):
+            from vlib.common import REPO
+            tmp = exe + ".tmp%d" % os.getpid()
+            rc, o, e = sh(["g++", "-std=c++11", "-O1", "-g", "-UNDEBUG", "-w", "-I", REPO, "-DKENLM_MAX_ORDER=6",
+                           os.path.join(VERIF, "tools", "probe_C09_storeorder.cc")] + flags + ["-o", tmp], timeout=300)
+            if rc == 0:
+                os.replace(tmp, exe)
+            else:
+                log("  [C09] store-order probe does not compile: %s" % e[-800:])
+        if os.path.exists(exe):
+            rc, o, e = sh([exe, str(order)], timeout=60)
+            st = [tuple(int(x) for x in l.split()[1:3]) for l in o.splitlines() if l.startswith("store ")]
+            if rc == 0 and st and "rewrites 0" in o:
+                res = st
+            else:
+                log("  [C09] store-order probe failed rc=%s: %s %s" % (rc, o[-300:], e[-300:]))
+        so_cache[order] = res
+        ctx.cov.setdefault("writeheader_store_order", {})[str(order)] = res
+        return res
+
     base = fresh_scratch("c09_%d_%d" % (ctx.seed, os.getpid()))
     try:
         B = os.path.join(bdir, "bin")
@@ -384,7 +450,7 @@ def run(ctx):
                 for wm in ("mmap", "after"):
                     for vocab_strings in (False, True):     # without first: its length is total_map
                         found |= run_config(ctx, bdir, shim, hexe, dexe, mdir, arpas[2], arpas[:2], queries, tname, targs, textra,
-                                            wm, vocab_strings, tm_of)
+                                            wm, vocab_strings, tm_of, store_order)
             log("  [C09] model %d done: %d configs" % (mi, len(ctx.cov.get("configs", {}))))
     finally:
         shutil.rmtree(base, ignore_errors=True)
@@ -396,7 +462,8 @@ def run(ctx):
         "crash model: kill = page cache survives; power loss = per-sector any version since the last covering sync, any length "
         "since the last sync; 512-byte sector writes atomic; header <= 512 bytes (theorem real_header_fits_sector)",
         "msync(MS_SYNC)/fsync force data (and the file length) to stable storage; the output path did not exist before",
-        "instants inside one WriteHeader call are not observed (the header store is one event)",
+        "WriteHeader's store order is that of the probe's compilation (-O1, same flags as the tools build), not of the inlined "
+        "copy inside build_binary",
         "body size announced by a header (Size(counts, config)) is taken from the complete file of the same build (C04's subject)",
     ]
     flow.report_obligation_failures(ctx, problems, found)
